@@ -1201,3 +1201,51 @@ Proof.
   intros H Hne. apply setHeight_inv in H as [(_ & _ & ?)|(_ & _ & ->)]; [discriminate|].
   destruct (h >? a_maxSeen (adj s)); rewrite nd_upd_ne by exact Hne; reflexivity.
 Qed.
+
+(** * The adjust-heights heap: [adjAdd], [adjRemoveMin] *)
+Definition adj_ids (s : state) : list nid := concat (a_byHeight (adj s)).
+
+Lemma adjAdd_inv s n s' : adjAdd s n = Ok s' ->
+  (hAdj (nd s n) <> unset /\ s' = s) \/
+  (hAdj (nd s n) = unset /\ 0 <= height (nd s n) /\
+   exists q, a_byHeight (adj s) !! Z.to_nat (height (nd s n)) = Some q /\
+     s' = (upd s n (set hAdj (fun _ => height (nd s n))))
+            <| adj := adj s <| a_byHeight := <[Z.to_nat (height (nd s n)) := q ++ [n]]> (a_byHeight (adj s)) |>
+                            <| a_maxSeen := Z.max (a_maxSeen (adj s)) (height (nd s n)) |>
+                            <| a_num := a_num (adj s) + 1 |> |>).
+Proof.
+  unfold adjAdd. destruct (Z.eqb_spec (hAdj (nd s n)) unset) as [E|E]; simpl.
+  2:{ intros [= <-]. left. auto. }
+  destruct (Z.ltb_spec (height (nd s n)) 0); [discriminate|].
+  destruct (a_byHeight (adj s) !! Z.to_nat (height (nd s n))) as [q|] eqn:Eq; [|discriminate].
+  intros [= <-]. right. split; [exact E|]. split; [assumption|]. exists q. split; reflexivity.
+Qed.
+
+Lemma adjScan_spec bs x upto x' n b' :
+  adjScan bs x upto = Some (x', n, b') -> exists i, bs !! i = Some (n :: b') /\ x' = (x + i)%nat.
+Proof.
+  revert x. induction bs as [|b bs IH]; intros x H; simpl in H; [discriminate|].
+  destruct (Z.of_nat x >? upto); [discriminate|]. destruct b as [|m b].
+  - apply IH in H as (i & Hi & ->). exists (S i). split; [exact Hi|lia].
+  - injection H as <- <- <-. exists 0%nat. split; [reflexivity|lia].
+Qed.
+
+Lemma adjRemoveMin_inv s r s' : adjRemoveMin s = Ok (r, s') ->
+  (r = None /\ s' = s) \/
+  (exists n x b', r = Some n /\ a_byHeight (adj s) !! x = Some (n :: b') /\
+     s' = (upd s n (set hAdj (fun _ => unset)))
+            <| adj := adj s <| a_byHeight := <[x := b']> (a_byHeight (adj s)) |>
+                            <| a_lower := Z.of_nat x |> <| a_num := a_num (adj s) - 1 |> |>).
+Proof.
+  unfold adjRemoveMin. destruct (a_num (adj s) =? 0); [intros [= <- <-]; left; auto|].
+  destruct (a_lower (adj s) <? 0); [discriminate|].
+  destruct (adjScan _ _ _) as [[[x n] b']|] eqn:E; [|intros [= <- <-]; left; auto].
+  intros [= <- <-]. right. apply adjScan_spec in E as (i & Hi & ->).
+  rewrite lookup_drop in Hi. exists n, (Z.to_nat (a_lower (adj s)) + i)%nat, b'. auto.
+Qed.
+
+Lemma concat_insert_perm (bs : list (list nid)) x b b' :
+  bs !! x = Some b -> exists l1 l2, concat bs = l1 ++ b ++ l2 /\ concat (<[x := b']> bs) = l1 ++ b' ++ l2.
+Proof.
+  intros H. destruct (concat_split bs x b H) as (l1 & l2 & E1 & E2). exists l1, l2. auto.
+Qed.
